@@ -88,6 +88,7 @@ type fakeIdp struct {
 	idTokenHook func(claims map[string]any, req *authReq) (string, bool)
 	omitIDToken bool
 	omitRefreshToken bool // the code grant answers without refresh_token (optional per RFC 6749 §5.1)
+	omitNewRefresh   bool // the NEXT refresh grant answers with a new access token but no refresh_token (optional per RFC 6749 §6); one-shot
 	jwksNoAlg   bool
 	extraJwks   []map[string]any
 }
@@ -381,7 +382,13 @@ func (ip *fakeIdp) token(w http.ResponseWriter, r *http.Request) {
 		addSecret("refresh_token", rt)
 		call.Status, call.Outcome = 200, "ok"
 		w.Header().Set("content-type", "application/json")
-		json.NewEncoder(w).Encode(map[string]any{"access_token": at, "token_type": "Bearer", "refresh_token": rt, "expires_in": int64(ip.tokenDuration.Seconds())})
+		out := map[string]any{"access_token": at, "token_type": "Bearer", "refresh_token": rt, "expires_in": int64(ip.tokenDuration.Seconds())}
+		if ip.omitNewRefresh {
+			ip.omitNewRefresh = false
+			delete(out, "refresh_token")
+			delete(ip.refresh, rt) // nothing was handed out: the relying party holds no refresh token any more
+		}
+		json.NewEncoder(w).Encode(out)
 	default:
 		reject(400, "unsupported grant_type")
 	}
